@@ -259,3 +259,13 @@ def sm_last_offset(ms: List[SourcedMessage], dflt: int) -> int:
     if len(ms) == 0:
         return dflt
     return ms[len(ms) - 1].offset
+
+
+# ---------------------------------------------------------------------------------------------- producer
+
+@rec
+def bytes_prefix(msgs: List[Optional[bytes]], k: int) -> int:
+    """total size of the non-null messages among the first k"""
+    if k <= 0:
+        return 0
+    return bytes_prefix(msgs, k - 1) + ite(msgs[k - 1] is None, 0, len(msgs[k - 1]))
